@@ -162,6 +162,7 @@ class Assembly:
         body, c = X.r1_drop_log(body); log.append(('R1 drop-log', c))
         body, c = X.r12_exec_asserts(body); log.append(('R12 exec-assert', c))
         body, c = X.r8_opaque_text(body); log.append(('R8 opaque-text/panic-args', c))
+        body, c = X.r11_split_or_guard(body); log.append(('R11 or-pattern/guard split', c))
         # explicit, logged token substitutions (R4 path resolution etc.)
         for sub in sec['subs']:
             body, c = _apply_sub(sub, body, a['name'])
@@ -169,6 +170,18 @@ class Assembly:
         for sub in sec['sigsubs']:
             sig, c = _apply_sub(sub, sig, a['name'])
             log.append(('R3/R4 sig-sub %s' % sub, c))
+        if 'mutself' in a:
+            # R14: Verus rejects a `mut self` receiver: it becomes the named parameter `mut <name>: Self`, and every `self`
+            # token of the body is renamed; callers use the path form `Self::f(x, ..)` (logged //@sub in the caller)
+            nm = a['mutself']
+            if not re.search(r'\(\s*mut\s+self\s*,', sig):
+                raise Undecided('fn %s: expected a `mut self` receiver' % a['name'])
+            sig = re.sub(r'\(\s*mut\s+self\s*,', '(mut %s: Self,' % nm, sig, count=1)
+            from .rustlex import lex as _lex
+            toks = _lex(body)
+            c = sum(1 for t in toks if t.kind == 'ident' and t.text == 'self')
+            body = ''.join((nm if (t.kind == 'ident' and t.text == 'self') else t.text) for t in toks)
+            log.append(('R14 mut-self receiver -> named parameter', c + 1))
         sig = X.strip_attrs(sig)
         if 'ret' in a:
             sig = X.name_return(sig, a['ret'])
